@@ -1,4 +1,5 @@
 import CattrsModel.Lemmas.RoundTripBase
+import CattrsModel.Lemmas.UnionPayload
 /-!
 # C01 core (Converter): structuring the unstructured form of a conforming value returns that value
 -/
@@ -451,8 +452,9 @@ theorem isLeaf_not_enum {v : Obj} (h : v.isLeaf = true) (w : World) (e : Nat) :
 
 /-- **C01 (core, Converter).** -/
 theorem roundtrip_aux (hg : cu.gen = true) (hstrat : cs.tupleStrat = cu.tupleStrat) (hforbid : cs.forbid = false)
-    (hw : w.WF) (hwe : w.WFE) (hws : w.supG cs.gen) :
-    ∀ (n m : Nat) (t : Ty) (x : Obj), sizeOf x ≤ n → sizeOf t ≤ m → t.supG cs.gen = true → conf w t x = true →
+    (hw : w.WF) (hwe : w.WFE) (hws : w.supG cs.gen) (hwu : w.unionsOK cs.tupleStrat) :
+    ∀ (n m : Nat) (t : Ty) (x : Obj), sizeOf x ≤ n → sizeOf t ≤ m → t.supG cs.gen = true →
+      t.unionsOK w cs.tupleStrat = true → conf w t x = true →
       x.valid = true → stF w cs t (un w cu t x) = some x := by
   intro n
   induction n with
@@ -464,17 +466,18 @@ theorem roundtrip_aux (hg : cu.gen = true) (hstrat : cs.tupleStrat = cu.tupleStr
     | zero => intro t x _ ht; have : 0 < sizeOf t := by cases t <;> simp <;> omega
               omega
     | succ m ihm =>
-      intro t x hx ht hs hc hv
-      have IHo : ∀ (t' : Ty) (x' : Obj), sizeOf x' < sizeOf x → t'.supG cs.gen = true → conf w t' x' = true →
+      intro t x hx ht hs hu hc hv
+      have IHo : ∀ (t' : Ty) (x' : Obj), sizeOf x' < sizeOf x → t'.supG cs.gen = true →
+          t'.unionsOK w cs.tupleStrat = true → conf w t' x' = true →
           x'.valid = true → stF w cs t' (un w cu t' x') = some x' :=
-        fun t' x' hlt hs' hc' hv' => ihn (sizeOf t') t' x' (by omega) (Nat.le_refl _) hs' hc' hv'
+        fun t' x' hlt hs' hu' hc' hv' => ihn (sizeOf t') t' x' (by omega) (Nat.le_refl _) hs' hu' hc' hv'
       cases t with
       | any => simp [Ty.supG] at hs
-      | int => cases x <;> simp_all [conf, un, stF, Obj.toInt?]
-      | float => cases x <;> simp_all [conf, un, stF, Obj.toFlt?]
-      | str => cases x <;> simp_all [conf, un, stF, pyStr]
-      | bytes => cases x <;> simp_all [conf, un, stF, Obj.toBytes?]
-      | bool => cases x <;> simp_all [conf, un, stF, Obj.truthy]
+      | int => clear IHo ihm ihn hwu hws hu; cases x <;> simp_all [conf, un, stF, Obj.toInt?]
+      | float => clear IHo ihm ihn hwu hws hu; cases x <;> simp_all [conf, un, stF, Obj.toFlt?]
+      | str => clear IHo ihm ihn hwu hws hu; cases x <;> simp_all [conf, un, stF, pyStr]
+      | bytes => clear IHo ihm ihn hwu hws hu; cases x <;> simp_all [conf, un, stF, Obj.toBytes?]
+      | bool => clear IHo ihm ihn hwu hws hu; cases x <;> simp_all [conf, un, stF, Obj.truthy]
       | enum e =>
         obtain ⟨mm, rfl, hm⟩ := conf_enum_inv w hc
         simp only [un, enumValue, stF]
@@ -495,7 +498,8 @@ theorem roundtrip_aux (hg : cu.gen = true) (hstrat : cs.tupleStrat = cu.tupleStr
           subst hck
           have hel := (confL_iff w t' xs).mp hcl
           have hrt : stFL w cs t' (unL w cu t' xs) = some xs :=
-            rtL w cu cs t' xs (fun y hy => IHo t' y (by have := List.sizeOf_lt_of_mem hy; simp; omega) hs' (hel y hy)
+            rtL w cu cs t' xs (fun y hy => IHo t' y (by have := List.sizeOf_lt_of_mem hy; simp; omega) hs'
+              (by simpa [Ty.unionsOK] using hu) (hel y hy)
               (validL_mem (by simpa [Obj.valid] using hv) hy))
           by_cases hiss : k.structTo.isSet = true
           · -- sets: the unstructured elements stay pairwise distinct and hashable
@@ -535,14 +539,24 @@ theorem roundtrip_aux (hg : cu.gen = true) (hstrat : cs.tupleStrat = cu.tupleStr
                                · subst e; exact h.1
                                · exact ih h.2 t' e
             exact this ts (by simpa [Ty.supG] using hs)
+          have hul : ∀ t' ∈ ts, t'.unionsOK w cs.tupleStrat = true := by
+            have : ∀ (l : List Ty), Ty.unionsOKL w cs.tupleStrat l = true → ∀ t' ∈ l, t'.unionsOK w cs.tupleStrat = true := by
+              intro l; induction l with
+              | nil => intro _ t' h; cases h
+              | cons a l ih => intro h t' ht'; simp only [Ty.unionsOKL, Bool.and_eq_true] at h
+                               rcases List.mem_cons.mp ht' with e | e
+                               · subst e; exact h.1
+                               · exact ih h.2 t' e
+            exact this ts (by simpa [Ty.unionsOK] using hu)
           rw [rtT w cu cs ts xs hc (fun t' ht' y hy hcy =>
-            IHo t' y (by have := List.sizeOf_lt_of_mem hy; simp; omega) (hsl t' ht') hcy
+            IHo t' y (by have := List.sizeOf_lt_of_mem hy; simp; omega) (hsl t' ht') (hul t' ht') hcy
               (validL_mem (by simpa [Obj.valid] using hv) hy))]
           rfl
         | _ => simp [conf] at hc
       | map k kt vt =>
         simp only [Ty.supG, Bool.and_eq_true] at hs
         obtain ⟨⟨hp, hsk⟩, hsv⟩ := hs
+        simp only [Ty.unionsOK, Bool.and_eq_true] at hu
         cases x with
         | dict kvs =>
           simp only [conf, Bool.and_eq_true] at hc
@@ -559,8 +573,8 @@ theorem roundtrip_aux (hg : cu.gen = true) (hstrat : cs.tupleStrat = cu.tupleStr
             obtain ⟨a, b⟩ := p
             simp only [Prod.mk.sizeOf_spec] at h1
             have hvv := validKV_mem (p := (a, b)) (by simp only [Obj.valid, Bool.and_eq_true] at hv; exact hv.2) hp'
-            exact ⟨IHo kt a (by simp; omega) hsk (hkv.1 a (by simp only [keysOf, List.mem_map]; exact ⟨(a, b), hp', rfl⟩)) hvv.1,
-                   IHo vt b (by simp; omega) hsv (hkv.2 b (by simp only [List.mem_map]; exact ⟨(a, b), hp', rfl⟩)) hvv.2⟩)]
+            exact ⟨IHo kt a (by simp; omega) hsk hu.1 (hkv.1 a (by simp only [keysOf, List.mem_map]; exact ⟨(a, b), hp', rfl⟩)) hvv.1,
+                   IHo vt b (by simp; omega) hsv hu.2 (hkv.2 b (by simp only [List.mem_map]; exact ⟨(a, b), hp', rfl⟩)) hvv.2⟩)]
           simp [hh, mkDict_of_nodup _ hnd]
         | _ => simp [conf] at hc
       | opt t' =>
@@ -574,12 +588,12 @@ theorem roundtrip_aux (hg : cu.gen = true) (hstrat : cs.tupleStrat = cu.tupleStr
           have : stF w cs (.opt t') (un w cu t' x) = stF w cs t' (un w cu t' x) := by
             cases hu : un w cu t' x <;> simp_all [stF]
           rw [this]
-          exact ihm t' x hx hsz hs' hc hv
+          exact ihm t' x hx hsz hs' (by simpa [Ty.unionsOK] using hu) hc hv
       | wrap k t' =>
         have hsz : sizeOf t' ≤ m := by simp at ht; omega
         have hs' : t'.supG cs.gen = true := by simpa [Ty.supG] using hs
         simp only [un, hg, Bool.true_or, if_true, stF]
-        exact ihm t' x hx hsz hs' (by simpa [conf] using hc) hv
+        exact ihm t' x hx hsz hs' (by simpa [Ty.unionsOK] using hu) (by simpa [conf] using hc) hv
       | cls c =>
         cases x with
         | inst c' fs =>
@@ -594,7 +608,7 @@ theorem roundtrip_aux (hg : cu.gen = true) (hstrat : cs.tupleStrat = cu.tupleStr
             simp only [hty]
             unfold fconf at hfc
             simp only [hty] at hfc
-            exact IHo t' p.2 (by have := sizeOf_snd_lt_of_mem hp; simp; omega) hst' hfc
+            exact IHo t' p.2 (by have := sizeOf_snd_lt_of_mem hp; simp; omega) hst' (hwu c f hf t' hty) hfc
               (validF_mem (by simpa [Obj.valid] using hv) hp)
           by_cases htup : cu.tupleStrat = true
           · rw [un]; simp only [htup, if_true]
@@ -644,13 +658,38 @@ theorem roundtrip_aux (hg : cu.gen = true) (hstrat : cs.tupleStrat = cu.tupleStr
             unfold hF unField
             simp only [hty]
             obtain ⟨k', hk'⟩ := dlookup_mem hl
-            exact IHo t' v (by have := dlookup_lt hl; simp; omega) hst' hfo (validKV_mem hv.2 hk').2)]
+            exact IHo t' v (by have := dlookup_lt hl; simp; omega) hst' (hwu c f hf t' hty) hfo (validKV_mem hv.2 hk').2)]
+        | _ => simp [conf] at hc
+      | union ucs hn =>
+        simp only [Ty.unionsOK, Bool.and_eq_true, Bool.not_eq_true'] at hu
+        obtain ⟨htupS, hok⟩ := hu
+        have htupU : cu.tupleStrat = false := by rw [← hstrat]; exact htupS
+        cases x with
+        | none =>
+          simp only [conf] at hc; subst hc
+          simp only [un, unAny]
+          rw [stF_union, unionPick_none_ok w hok]
+        | inst c fs =>
+          simp only [conf, Bool.and_eq_true, List.contains_iff_mem] at hc
+          obtain ⟨hcm, hcf⟩ := hc
+          have hcm' : c ∈ ucs := by simpa using hcm
+          have hcls := ihm (.cls c) (.inst c fs) hx (by have := sizeOf_cls_lt_union hcm' hn; omega)
+            (by simp [Ty.supG]) (by simp [Ty.unionsOK]) (by simp [conf, hcf]) hv
+          have hun : un w cu (.union ucs hn) (.inst c fs) = un w cu (.cls c) (.inst c fs) := by
+            simp only [un, unAny]
+          rw [hun]
+          have hd : un w cu (.cls c) (.inst c fs) = .dict (unFields w cu (w.fields c) fs) := by
+            simp [un, htupU]
+          rw [stF_union, hd, unionPick_member w cu hw hok hn hcm' fs hcf]
+          simp only [hcm', if_true]
+          rw [← hd]; exact hcls
         | _ => simp [conf] at hc
 
 theorem roundtrip (hg : cu.gen = true) (hstrat : cs.tupleStrat = cu.tupleStrat) (hforbid : cs.forbid = false)
-    (hw : w.WF) (hwe : w.WFE) (hws : w.supG cs.gen)
-    (t : Ty) (x : Obj) (hs : t.supG cs.gen = true) (hc : conf w t x = true) (hv : x.valid = true) :
+    (hw : w.WF) (hwe : w.WFE) (hws : w.supG cs.gen) (hwu : w.unionsOK cs.tupleStrat)
+    (t : Ty) (x : Obj) (hs : t.supG cs.gen = true) (hu : t.unionsOK w cs.tupleStrat = true)
+    (hc : conf w t x = true) (hv : x.valid = true) :
     stF w cs t (un w cu t x) = some x :=
-  roundtrip_aux w cu cs hg hstrat hforbid hw hwe hws (sizeOf x) (sizeOf t) t x (Nat.le_refl _) (Nat.le_refl _) hs hc hv
+  roundtrip_aux w cu cs hg hstrat hforbid hw hwe hws hwu (sizeOf x) (sizeOf t) t x (Nat.le_refl _) (Nat.le_refl _) hs hu hc hv
 
 end CattrsModel
